@@ -69,7 +69,15 @@ def byz_sample(ctx, traces, n_single, n_multi):
     multi = [t for t in pool if malformations(t) > 1]
     ctx.rng.shuffle(single)
     ctx.rng.shuffle(multi)
-    chosen = good + single[:n_single] + multi[:n_multi]
+    # forged votes that do not count for the block (nil / other block, bad signature) are always in the sample,
+    # alone and next to another malformation
+    forged = ('nilBadSig', 'otherBlockBadSig', 'nilSignedByOther', 'otherBlockSignedByOther')
+
+    def has_forged(t):
+        return any(s['a'] == 'TamperSlot' and s['args'][1] in forged for s in t['steps'])
+    must = [t for t in single if has_forged(t)][:4] + [t for t in multi if has_forged(t)][:2]
+    ids = set(t['id'] for t in must)
+    chosen = good + must + [t for t in single if t['id'] not in ids][:n_single] + [t for t in multi if t['id'] not in ids][:n_multi]
     out = []
     pending = {}
     for t in chosen:
@@ -169,7 +177,7 @@ def run(ctx, replay=None):
     if not traces:
         raise engine.Inconclusive('no behaviours obtained from TLC')
 
-    byz, n_byz_blocks = byz_sample(ctx, traces, 18 if quick else 88, 9 if quick else 90)
+    byz, n_byz_blocks = byz_sample(ctx, traces, 14 if quick else 84, 7 if quick else 88)
 
     # binding self-test: a corrupted expectation must be rejected by the driver
     probes = []
